@@ -46,4 +46,11 @@ theorem src :
     Gen.Address.src_guards_IsTrytesOfExactLength = Expect.Address_src_guards_IsTrytesOfExactLength :=
   ⟨rfl, rfl, rfl, rfl, rfl, rfl, rfl, rfl, rfl, rfl, rfl, rfl, rfl⟩
 
+/-- everything else the package declares (imports, constants, types, variables, build constraints and the functions not
+pinned one by one) is unchanged too: no declaration of the modelled packages can change without a tie theorem failing. -/
+theorem rest :
+    Gen.Address.rest_address = Expect.Address_rest_address ∧
+    Gen.Address.rest_migration = Expect.Address_rest_migration :=
+  ⟨rfl, rfl⟩
+
 end Iota.Tie.C19
